@@ -83,7 +83,7 @@ Print Assumptions C09_ht_refines.
 (* Traversals.  [tr_ok i w ops]: ops consists of advances of iterator i and of operations that do not
    operate on iterator i and are calm ([calm]: every operation except those that may relink a
    surviving entry -- MoveTo*, PutAt*/PutBefore/PutBehind, Sort*, Reposition, SetAutoSortEnabled,
-   Put on an existing key of an auto-sorting table, CopyFrom, Intersect -- which are admitted only
+   Put on an existing key of an auto-sorting table, CopyFrom, copy construction -- which are admitted only
    when they leave the world unchanged).  [trav i w ops]: the entries newly shown by the advances. *)
 
 (* no entry is shown twice *)
